@@ -57,6 +57,16 @@ CHECKS.update({
     technique="TLA+ module XmlWriter.tla (EXTENDS DocGen): ExpXml(M) from the statement vs Written(M), a transcription of XMLWriter's procedures; TLC checks Written = ExpXml on the DocGen universe; every model parsed, written by write_XML_file under ASan/UBSan, read back with an independent XML parser (python expat) and compared with ExpXml(M)",
     text="For every generated accepted model (incl. self loops, parallel edges, edges through branchpoints, XML-special characters in labels, trivially true guards, several templates reusing location names) the written file must be well-formed and hold, per template, one location element per location with an id unique in the template, name, invariant/rate labels, urgent/committed, exactly one init reference, one transition per edge in order with resolving source/target references, the controllable attribute and the five label kinds; writing must not crash (sanitizer build).",
     note="Trusts TLC, python's xml.etree (expat) as the independent parser, the renderer. Select binder types are compared as text modulo blanks/implicit const; one redundant outer pair of parentheses around an invariant is not a difference. The <system> text is only required not to crash the writer."),
+ "C05": dict(
+    category="model_checking", design_ref="DESIGN.md section 5 (C05)",
+    technique="TLA+ state machine DocGen.tla generates the abstract models (exhaustive small universe + random walks); every model is rendered both as .xml and as .xta, both parsed by libutap and the canonical dumps compared (metamorphic replay of TLC-generated models); rejected models by injecting one semantic fault into the same label of both renderings",
+    text="For every generated model (branchpoints, probability weights, uncontrollable edges, {inv ; rate}, commit/urgent, shadowing selects, partial/chained instantiations, priorities) the documents built from the XML and from the XTA rendering must have the same declarations, templates, locations, flags, edges, labels, instances, processes, multiset of diagnostics and supported-analysis verdict; also for models rejected because of an injected type/scope/side-effect fault.",
+    note="Trusts TLC, the two renderers (lib/docgen.py render_xta, lib/xmlgen.py) and the canonical dump; positions are format specific and excluded. The XTA grammar path is otherwise unexercised by the repository's tests."),
+ "C08": dict(
+    category="model_checking", design_ref="DESIGN.md section 5 (C08), 2.4",
+    technique="TLA+ Builder.tla (structural ParserBuilder callbacks of DocumentBuilder/Document with their error paths; DocInv = the property) model-checked by TLC over ALL callback sequences up to a bound (BuilderMC.tla); conformance both ways: every distinct spec state's history replayed into the real DocumentBuilder (projection must be equal), and callback traces recorded from real parses validated by TLC against Builder!Apply (BuilderTrace.tla); the statement's relations are evaluated by a walker over every object reachable from every document produced",
+    text="TLC proves DocInv (back pointers by construction, one source/one target in the edge's own template, dense numbering, unbound-first, arity = unbound, mapping = bound parameters, init among own locations) on every state reachable by structural callback sequences incl. duplicates, unresolved names, kind clashes and arity mismatches; the real builder must reach the same states; every document produced by any parse of the check (valid models as XML and XTA, 15 kinds of structural faults, parses ending in exceptions, the repository's models) is walked object by object.",
+    note="Trusts TLC, harness/proj.hpp (projection) and the walker in harness/dump.hpp. Expression-level callbacks are abstracted to fragment counts. A spec/implementation disagreement without an observed property violation is printed as DRIFT and recorded in the evidence, not reported as a violation."),
 })
 NOT_APPLICABLE = {}
 PENDING_REASON = "check not built yet (work in progress; see DESIGN.md section 5 for the plan)"
